@@ -1,6 +1,7 @@
 package loadbalancer
 
 import (
+	"context"
 	"net/http"
 	"strings"
 	"time"
@@ -11,16 +12,20 @@ import (
 	"github.com/0xReLogic/Helios/internal/verifrt"
 )
 
+// verifClientMayLeave: requests may carry a context that is already cancelled (client disconnected).
+var verifClientMayLeave = false
+
 // verifBreakerExtraSuccess: success_threshold = 1 + this (1 makes the half-open
 // budget smaller than the threshold, so sequential requests reach the
 // "too many requests" rejection).
 var verifBreakerExtraSuccess = 0
 
 const (
-	verifFeatBreaker = 1
-	verifFeatLimiter = 2
-	verifFeatPassive = 4
-	verifFeatInterim = 8 // scripted backends may send an interim 103 before the final status
+	verifFeatBreaker      = 1
+	verifFeatLimiter      = 2
+	verifFeatPassive      = 4
+	verifFeatInterim      = 8  // scripted backends may send an interim 103 before the final status
+	verifFeatClientLeaves = 16 // a request may carry an already cancelled context (the client disconnected)
 )
 
 // verifFullLB builds a balancer with n scripted backends and the selected features.
@@ -93,6 +98,8 @@ func verifServe(lb *LoadBalancer, rec http.ResponseWriter, fin func(), r *http.R
 // (any backend behaviour incl. abort, rate limiting, breaker rejection, no
 // healthy backend) the published numbers add up.
 func VerifC13Accounting(strategy, features, k, arbHealth int) {
+	verifClientMayLeave = features&verifFeatClientLeaves != 0
+	defer func() { verifClientMayLeave = false }()
 	verifBreakerExtraSuccess = 0
 	if features&verifFeatBreaker != 0 && arbHealth == 0 {
 		verifBreakerExtraSuccess = verifrt.Choice("success_threshold_minus_1", 2)
@@ -112,7 +119,14 @@ func VerifC13Accounting(strategy, features, k, arbHealth int) {
 		}
 		rec := &verifBodyRecorder{verifRecorder: verifNewRecorder()}
 		hitsBefore := verifProxyHits[bs[0].Name] + verifProxyHits[bs[1].Name]
-		aborted, crashed := verifServe(lb, rec, rec.finish, verifRequest("10.1.2.3:4711"))
+		req := verifRequest("10.1.2.3:4711")
+		if verifClientMayLeave && verifrt.Bool("clientHasGoneAway") {
+			// the client disconnected: its request context is cancelled while the exchange is still accounted for
+			ctx, cancel := context.WithCancel(context.Background())
+			cancel()
+			req = req.WithContext(ctx)
+		}
+		aborted, crashed := verifServe(lb, rec, rec.finish, req)
 		verifrt.Assert(!crashed, "no panic other than the re-raised abort")
 		if aborted {
 			sawAbort = true
